@@ -6,7 +6,7 @@ import LlgoVerif.Model.Cache
     `use <opt> <ccrest>`                 → `ok <CCFLAGS list>`                    (crosscompile export)
     `key G=… P=… P=…`                    → `ok <hexid>!<canonical manifest>!<hash of the full fingerprint> …`
     `rel G=… P=… P=…`                    → `ok <hexid>!<hash of the relevant inputs> …`
-    `build <force> <cacheOn> G=… P=… …`  → `ok <hexid>:<hit|miss>:<fresh|stale>:<hash of the relevant inputs> …`   (model's `buildProg` on the state)
+    `build <force> <cacheOn> G=… P=… …`  → `ok <hexid>:<hit|miss>:<fresh|stale>:<hash of the relevant inputs>:<fingerprint> …`   (model's `buildProg` on the state)
     `clean`                              → `ok`
     Strings are hex of bytes (`-` = empty), lists are `,`-separated (`.` = empty).  See harness/c13/main.go. -/
 open LlgoVerif LlgoVerif.Util LlgoVerif.Cache
@@ -164,7 +164,7 @@ def handle (st : St) (line : String) : St × String :=
         let hit := o.cacheOn && !o.force && cachedKind t.data && (lookup acc.1 k).isSome
         let b := buildPkg st.cfg hb' fp' (fun r => r) o g acc.1 t
         let fresh := relHash b.2 == relHash (relevant g t)
-        (b.1, acc.2 ++ [hexS t.data.id ++ ":" ++ (if hit then "hit" else "miss") ++ ":" ++ (if fresh then "fresh" else "stale") ++ ":" ++ relHash (relevant g t)]))
+        (b.1, acc.2 ++ [hexS t.data.id ++ ":" ++ (if hit then "hit" else "miss") ++ ":" ++ (if fresh then "fresh" else "stale") ++ ":" ++ relHash (relevant g t) ++ ":" ++ k]))
         (st.cache, [])
       ({ st with cache := r.1 }, "ok " ++ " ".intercalate r.2)
     | none => (st, "bad-op")
